@@ -410,6 +410,15 @@ class Frame:
                     out.append(q2)
             return out
         if isinstance(st, ast.Delete):
+            for tg in st.targets:
+                if isinstance(tg, ast.Subscript) and isinstance(tg.value, (ast.Name, ast.Attribute)):
+                    r1 = self.expr(tg.value, p.fork())
+                    r2 = self.expr(tg.slice, p.fork()) if not isinstance(tg.slice, ast.Slice) else []
+                    if len(r1) == 1 and len(r2) == 1:
+                        self.ev(p, "delete", text=ast.unparse(tg), args=(r1[0][1], r2[0][1]), line=st.lineno, op=self.fname)
+                elif isinstance(tg, ast.Attribute) and isinstance(tg.value, ast.Name):
+                    bt = p.env.get(tg.value.id)
+                    self.ev(p, "delete", text=ast.unparse(tg), args=(bt if bt is not None else Opaque("obj"), Const(tg.attr)), line=st.lineno, op=self.fname)
             return [p]
         self.ctx.note(f"unsupported statement {type(st).__name__} in {self.fname}")
         return [p]
